@@ -454,7 +454,7 @@ def dphiGrid (pi : α) (N k : Nat) : α := (k : α) * (pi / ((N / 2 : Nat) : α)
 /-- coefficient `(p, q, m)` of `generic_ft_even_matrix(phase_function, m_max, nsamples = N)` for a phase function
     given as `phase p q Δφ` at one pair of directions -/
 def ftEvenPhase (pi : α) (npol N : Nat) (phase : Nat → Nat → α → α) (p q m : Nat) : α :=
-  ftEvenCoef npol N p q m (fun k => phase p q (dphiGrid pi N k))
+  ftEvenCoef pi npol N p q m (fun k => phase p q (dphiGrid pi N k))
 
 /-- the guard of `IBA.ft_even_phase` / `SCEBase.ft_even_phase`: `np.any(mu_i == 1) and npol > 2` -/
 def ftGuard (npol : Nat) (muiIsOne : Bool) : Except Err Unit :=
